@@ -563,7 +563,7 @@ pub fn run(ctx: &Ctx, id: &str) -> i32 {
     report.rule = if id == "C07" {
         format!("call histories of begin/commit/cancel over tokens {{a,b,c}} (tokens introduced in this order: symmetry), model-guided bounded-exhaustive: every history of exactly {depth} calls with every terminal outcome (reservation: success / abort / missing receipt / abort after a status information that already carried a receipt number; reversal: completed / abort / abort B8 echoing the request's receipt number) branched where the model accepts the call, x transactions_max_num 0..3; then a probe suffix cancel(a), cancel(b), cancel(c); plus {n_walks} random walks to depth 40 with empty / 99-byte / non-ASCII tokens and max 0..4. Additionally: pairs of tokens that are equal after trimming white space / case folding (different tokens: both stay open), card reads interleaved with the transaction calls (the card's status information carrying an amount, a receipt number equal to an open transaction's, and a maximum pre-authorisation amount around the configured one: no effect on the tokens allowed), every abort code 0..255 for a reservation while another transaction is open, every abort code 0..255 x {{no receipt, own receipt echoed, FFFF, another receipt}} for commit and cancel with one and two open transactions, and a link fault (close/garbage/NACK/foreign/silence/reply-then-close) at every packet of the reservation exchange followed by commit/cancel (the token must map to the receipt of the reservation that completed); every fifth history runs against a terminal whose receipt numbers repeat (one number for every reservation / two in turn), so that tokens open at the same time share a number. Oracle: sequential client model (D.3) for the result class, 'refused => no request and no connection', 'commit/cancel carry the receipt number the terminal issued for that token', and the hook snapshot of the client's map after every call. Non-trivial = history with at least one accepted call; distinct by hash of (history, max).")
     } else {
-        format!("the C07 histories (exactly {depth} calls, max 1..3) and {n_walks} random walks, each run under a clean-up behaviour chosen per scenario: pending query reports {{no receipt field, FFFF, a dangling receipt}}, reversal of the dangling receipt {{completes, aborts}}, end-of-day {{completion, abort A0, every abort code 00..FF in turn, aborts (B8, A0, B4, ...) that also carry a receipt number}}, with intermediate/print packets inside the end-of-day exchange. Oracle (temporal checker over the request log per call): a commit/cancel the terminal completed that leaves no token open is followed by exactly PendingQuery -> PreAuthReversal(d) iff d reported -> EndOfDay(password); result Ok on completion/A0, error otherwise; with tokens remaining no PendingQuery/EndOfDay. Non-trivial = history containing at least one completed commit/cancel; distinct by hash of (history, max, clean-up behaviour).")
+        format!("the C07 histories (exactly {depth} calls, max 1..3) and {n_walks} random walks, each run under a clean-up behaviour chosen per scenario: pending query reports {{no receipt field, FFFF, a dangling receipt}}, reversal of the dangling receipt {{completes, aborts}}, end-of-day {{completion, abort A0, every abort code 00..FF in turn, aborts (B8, A0, B4, ...) that also carry a receipt number}}, with intermediate/print packets inside the end-of-day exchange; every end-of-day abort code at an idle point followed by two open transactions of which one is completed while the other stays open. Oracle (temporal checker over the request log per call): a commit/cancel the terminal completed that leaves no token open is followed by exactly PendingQuery -> PreAuthReversal(d) iff d reported -> EndOfDay(password); result Ok on completion/A0, error otherwise; with tokens remaining no PendingQuery/EndOfDay. Non-trivial = history containing at least one completed commit/cancel; distinct by hash of (history, max, clean-up behaviour).")
     };
     report.exhaustive = Some(true);
     report.assumptions = vec![
@@ -736,6 +736,26 @@ pub fn run(ctx: &Ctx, id: &str) -> i32 {
                     ];
                     run_one(r, &mut rng, 1, steps, 0);
                     r.count("histories_with_the_same_cleanup_three_times", 1);
+                }
+            }
+            *fixed_cleanup.borrow_mut() = None;
+        }
+        // every end-of-day abort code at an idle point, followed by two transactions of which one is completed while the
+        // other stays open (no clean-up may run then, whatever the earlier end-of-day was refused with), then the other
+        for code in (0..=255u8).filter(|c| *c as usize % threads == shard) {
+            for with_receipt in [false, true] {
+                *fixed_cleanup.borrow_mut() = Some(Cleanup { pending: Some(Some(0xffff)), reversal_abort: None, eod_abort: Some(code), eod_abort_receipt: if with_receipt { Some(0xffff) } else { None }, eod_pre: vec![] });
+                for commit in [true, false] {
+                    let steps = vec![
+                        Step::Begin("a".into(), BeginOut::Success),
+                        Step::Commit("a".into(), 300, RevOut::Completed),
+                        Step::Begin("b".into(), BeginOut::Success),
+                        Step::Begin("c".into(), BeginOut::Success),
+                        if commit { Step::Commit("b".into(), 700, RevOut::Completed) } else { Step::Cancel("b".into(), RevOut::Completed) },
+                        Step::Cancel("c".into(), RevOut::Completed),
+                    ];
+                    run_one(r, &mut rng, 2, steps, code as usize);
+                    r.count("histories_with_a_refused_end_of_day_before_two_open_transactions", 1);
                 }
             }
             *fixed_cleanup.borrow_mut() = None;
